@@ -16,7 +16,11 @@ EXTENDS Integers, Sequences, FiniteSets, TLC, Json, NslStatic
 CONSTANTS Size            \* 1: one item plus optionally a leaf before/after; 2: also one more nesting level
 
 Names == {"p", "g", "x", "y"}
+\* D(n): declaration with initialiser, U(n): use, D0 (in SIB / DC items): a declaration of x without initialiser (reads as zero wherever it executes)
 Leaf == {[k |-> "D", n |-> n] : n \in Names} \cup {[k |-> "U", n |-> n] : n \in Names}
+Dx == [k |-> "D", n |-> "x"]
+D0x == [k |-> "D0", n |-> "x"]
+Ux == [k |-> "U", n |-> "x"]
 Seq0 == {<<a>> : a \in Leaf} \cup {<<a, b>> : a \in Leaf, b \in Leaf}
 Kinds == {"block", "if", "while", "do"}
 Item1 == Leaf \cup {[k |-> "W", w |-> w, s |-> s] : w \in Kinds, s \in Seq0}
@@ -24,6 +28,11 @@ Item1 == Leaf \cup {[k |-> "W", w |-> w, s |-> s] : w \in Kinds, s \in Seq0}
               \cup {[k |-> "IE", a |-> <<a>>, b |-> <<b>>] : a \in Leaf, b \in Leaf}
               \* a declaration that is itself the (un-braced) branch or loop body: the branch / loop is still its scope
               \cup {[k |-> "WB", w |-> w, n |-> n] : w \in {"if", "else", "for", "while"}, n \in Names}
+              \* two sibling scopes that use the same name: the second one's variable is its own
+              \cup {[k |-> "SIB", w1 |-> w1, w2 |-> w2, a |-> a, b |-> b] : w1 \in {"block", "if", "do"}, w2 \in {"block", "if", "do"},
+                       a \in {<<Dx, Ux>>, <<Dx>>}, b \in {<<D0x, Ux>>, <<D0x>>, <<Dx, Ux>>, <<Ux>>}}
+              \* a do loop whose condition names a variable: the body's declarations are not visible in the condition
+              \cup {[k |-> "DC", s |-> s, n |-> n] : s \in {<<Dx>>, <<Dx, Ux>>, <<D0x>>, <<[k |-> "U", n |-> "g"]>>, <<[k |-> "D", n |-> "y"]>>}, n \in {"x", "y", "g"}}
 Body1 == {<<i>> : i \in Item1} \cup {<<l, i>> : l \in Leaf, i \in Item1 \ Leaf} \cup {<<i, l>> : l \in Leaf, i \in Item1 \ Leaf}
 \* one more level: a declaration, then a wrapper (or for header) around a two-level body over the names x, g only
 Small == {[k |-> "D", n |-> "x"], [k |-> "U", n |-> "x"], [k |-> "U", n |-> "g"], [k |-> "D", n |-> "g"]}
@@ -52,6 +61,13 @@ RECURSIVE Item(_, _), Items(_, _, _)
 Items(s, i, id) == IF i > Len(s) THEN <<>> ELSE Item(s[i], id * 8 + i) \o Items(s, i + 1, id)
 Item(it, id) ==
   CASE it.k = "D" -> <<Decl(it.n, Lit(20 + (id % 53)))>>
+    [] it.k = "D0" -> <<Decl(it.n, None)>>
+    [] it.k = "SIB" ->
+         LET W1(w, body) == CASE w = "block" -> Block(body)
+                              [] w = "if" -> [k |-> "if", c |-> Bop("<", Lit(0), Lit(1)), t |-> Block(body), e |-> None]
+                              [] w = "do" -> [k |-> "do", b |-> Block(body), c |-> Bop(">", Lit(0), Lit(1))] IN
+         <<W1(it.w1, Items(it.a, 1, id * 8 + 5)), W1(it.w2, Items(it.b, 1, id * 8 + 6))>>
+    [] it.k = "DC" -> <<[k |-> "do", b |-> Block(Items(it.s, 1, id)), c |-> Bop(">", V(it.n), Lit(1000))]>>
     [] it.k = "U" -> <<Asg(it.n, Bop("+", V(it.n), Lit(1))),
                        Asg("t", Bop("%", Bop("+", Bop("*", V("t"), Lit(7)), V(it.n)), Lit(1000003)))>>
     [] it.k = "W" ->
